@@ -179,6 +179,65 @@ def algTab : FunTab K where
     else if f = "Min" then (if y < x then y else x)
     else zero
 
+/-- the primitive transcendental functions a number type offers (libm for `Float`, Mathlib's
+functions for the reals) -/
+structure Prims (K : Type) where
+  pi : K
+  e : K
+  sin : K → K
+  cos : K → K
+  tan : K → K
+  exp : K → K
+  log : K → K
+  sqrt : K → K
+  tanh : K → K
+  sinh : K → K
+  cosh : K → K
+  atan : K → K
+  asin : K → K
+  acos : K → K
+  asinh : K → K
+  atanh : K → K
+  floor : K → K
+  ceil : K → K
+  /-- the error function (py-pde's special function `erf`) -/
+  erf : K → K
+  pow : K → K → K
+  atan2 : K → K → K
+
+/-- THE table of the expression language: which name denotes which primitive.  One definition
+for every number type with transcendental functions - the driver instantiates it with libm
+(`Float`), the soundness theorem of the derivative with the real functions - so the dispatch on
+names that is executed is the dispatch the theorems are about.  `hypot` is `sqrt(x*x + y*y)`;
+names without a primitive fall through to `algTab` (abs, sign, Max, Min; 0 for unknown names -
+the driver refuses expressions with unknown names before evaluating). -/
+def primTab (P : Prims K) : FunTab K where
+  heav := heaviside
+  cmp := cmpVal
+  f0 := fun c => if c = "pi" then P.pi else if c = "E" then P.e else zero
+  f1 := fun f x =>
+    if f = "sin" then P.sin x else if f = "cos" then P.cos x
+    else if f = "tan" then P.tan x else if f = "exp" then P.exp x
+    else if f = "log" then P.log x else if f = "sqrt" then P.sqrt x
+    else if f = "tanh" then P.tanh x else if f = "sinh" then P.sinh x
+    else if f = "cosh" then P.cosh x else if f = "atan" then P.atan x
+    else if f = "asin" then P.asin x else if f = "acos" then P.acos x
+    else if f = "asinh" then P.asinh x else if f = "atanh" then P.atanh x
+    else if f = "floor" then P.floor x else if f = "ceiling" then P.ceil x
+    else if f = "erf" then P.erf x
+    else (algTab : FunTab K).f1 f x
+  f2 := fun f x y =>
+    if f = "pow" then P.pow x y
+    else if f = "hypot" then P.sqrt (x * x + y * y)
+    else if f = "atan2" then P.atan2 x y
+    else (algTab : FunTab K).f2 f x y
+
+/-- unary / binary names `primTab` interprets through a primitive -/
+def primFun1 : List String :=
+  ["sin", "cos", "tan", "exp", "log", "sqrt", "tanh", "sinh", "cosh", "atan", "asin", "acos",
+   "asinh", "atanh", "floor", "ceiling", "erf"]
+def primFun2 : List String := ["pow", "hypot", "atan2"]
+
 end order
 
 end
